@@ -206,6 +206,17 @@ func MonC19(c *MonCtx) {
 		changed = append(changed, k+" (deleted)")
 	}
 	sort.Strings(changed)
+	if c.Out.CmdErr != nil && cmd == "canary-unpause" && e0.Status.Canary != nil && e0.Spec.Strategy.Canary != nil {
+		// unpause may refuse when the annotations already say "unpaused"; it must not refuse a canary that is paused by its
+		// replica set's own condition (auto-pause) and was never unpaused
+		if rs := c.Pre.ERS(ns, e0.Status.Canary.ReplicaSet); rs != nil && ERSCondTrue(rs, v1.ConditionTypeCanaryPaused) && !ERSCondTrue(rs, v1.ConditionTypeCanaryFailed) {
+			if _, has := Annot(e0, "canary-unpaused"); !has {
+				if _, hasP := Annot(e0, "canary-paused"); !hasP {
+					c.Violate("C19", "C19/refusal: canary unpause refused although the canary is paused (by its replica set's condition) and no annotation says otherwise", fmt.Sprint(c.Out.CmdErr))
+				}
+			}
+		}
+	}
 	if c.Out.CmdErr != nil {
 		if len(changed) > 0 {
 			c.Violate("C19", "C19/refusal: "+cmd+" returned an error but changed objects", fmt.Sprint(changed))
